@@ -156,7 +156,7 @@ def planOf : List String → Option (Plan × List String)
       | "F" :: pre :: b :: rest =>
         -- write(pre) (or sendHeaders() alone), then put(File): the file goes out through writeFile() behind the piece
         match bodyOf pre, bodyOf b with
-        | some pr, some x => some ({ code := c, headers := hs, kind := .streamAuto ((if pr.isEmpty then [] else [pr]) ++ partsOf [recvBlock] x) }, rest)
+        | some pr, some x => some ({ code := c, headers := hs, kind := .streamFile pr x }, rest)
         | _, _ => none
       | "R" :: loc :: rel :: b :: rest =>
         match unhexFast loc, (if rel == "-" then some [] else unhexFast rel), bodyOf b with
